@@ -69,6 +69,15 @@ pub enum Kind {
         len: u32,
         relay: Option<u32>,
     },
+    /// two concurrent readers on one pipe: every byte reaches exactly one of
+    /// them (the lengths, byte sums and sums of squares add up)
+    TwoReaders {
+        n: u32,
+        s: u64,
+        chunk: u32,
+        buf_a: u32,
+        buf_b: u32,
+    },
     /// reader exits early: liveness and prefix integrity only
     EarlyExit {
         n: u32,
@@ -204,7 +213,14 @@ pub fn generate(rng: &mut Rng, tier: Tier) -> Case {
             read_loop: rng.below(4) == 0,
             sink_buf: *rng.pick(&bufs()),
         },
-        85..=87 => Kind::TwoWriters {
+        85 => Kind::TwoReaders {
+            n: pick_n(rng, tier),
+            s: rng.next_u64() % 1000,
+            chunk: *rng.pick(&[1u32, 100, 512, 513, 4096]),
+            buf_a: *rng.pick(&bufs()),
+            buf_b: *rng.pick(&bufs()),
+        },
+        86..=87 => Kind::TwoWriters {
             count_a: rng.range(1, 40),
             count_b: rng.range(1, 40),
             len: *rng.pick(&[2u32, 8, 100, 256, 511, 512]),
@@ -416,6 +432,14 @@ pub fn render(c: &Case) -> (String, Option<String>) {
                 )),
             )
         }
+        Kind::TwoReaders { n, s, chunk, buf_a, buf_b } => (
+            // (an asynchronous list reads /dev/null unless told otherwise:
+            // both readers take the pipe from descriptor 3)
+            format!(
+                "gen {n} {s} {chunk} 2 0 | {{ tally {buf_a} <&3 >/work/t1 & tally {buf_b} <&3 >/work/t2; wait; cat /work/t1 /work/t2; }} 3<&0\necho \"?=$?\"\n"
+            ),
+            None,
+        ),
         Kind::EarlyExit {
             n,
             s,
@@ -540,6 +564,36 @@ fn check_run(c: &Case, expected: &Option<String>, obs: &Observed) -> Option<(Str
         None => {
             // early-exiting reader: the shell terminates, the prefix that
             // arrived is in order and at least `limit` bytes long
+            if let Kind::TwoReaders { n, s, .. } = &c.kind {
+                let data = crate::probes::stream_bytes(*s, *n as usize, 2);
+                let want = (
+                    data.len() as u64,
+                    data.iter().map(|b| *b as u64).sum::<u64>(),
+                    data.iter().map(|b| (*b as u64) * (*b as u64)).sum::<u64>(),
+                );
+                let mut got = (0u64, 0u64, 0u64);
+                let mut lines = 0;
+                for l in obs.stdout.lines().filter(|l| l.starts_with("len=")) {
+                    let f = |k: &str| -> u64 {
+                        l.split_whitespace()
+                            .find_map(|w| w.strip_prefix(k))
+                            .and_then(|v| v.parse().ok())
+                            .unwrap_or(u64::MAX / 4)
+                    };
+                    got = (got.0 + f("len="), got.1 + f("sum="), got.2 + f("sq="));
+                    lines += 1;
+                }
+                if lines != 2 || got != want || !obs.stdout.ends_with("?=0\n") || obs.status != "exited:0" || !obs.stderr.is_empty() {
+                    return Some((
+                        "data".into(),
+                        "data:two-readers".into(),
+                        format!(
+                            "two readers on one pipe: expected the two summaries to add up to len={} sum={} sq={} and '?=0', observed {:?} status {} (stderr {:?})",
+                            want.0, want.1, want.2, obs.stdout, obs.status, obs.stderr
+                        ),
+                    ));
+                }
+            }
             if let Kind::EarlyExit { limit, buf, .. } = &c.kind {
                 let line = obs.stdout.lines().next().unwrap_or("");
                 let len: i64 = line
@@ -663,6 +717,7 @@ impl Prop for C14 {
                     Kind::ReadSlow { .. } => "kind:read-slow-producer",
                     Kind::EarlyExit { .. } => "kind:early-exit-reader",
                     Kind::TwoWriters { .. } => "kind:two-writers-atomicity",
+                    Kind::TwoReaders { .. } => "kind:two-readers-partition",
                 };
                 stats.count(kind, 1);
                 if k == 0 && stats.samples.len() < 3 && index % 7 == 0 {
@@ -771,6 +826,11 @@ impl Prop for C14 {
                 }
                 if *count_b > 1 {
                     push(Kind::TwoWriters { count_a: *count_a, count_b: count_b / 2, len: *len, relay: *relay });
+                }
+            }
+            Kind::TwoReaders { n, s, chunk, buf_a, buf_b } => {
+                for m in smaller(*n) {
+                    push(Kind::TwoReaders { n: m, s: *s, chunk: *chunk, buf_a: *buf_a, buf_b: *buf_b });
                 }
             }
             Kind::EarlyExit { n, s, chunk, buf, limit } => {
